@@ -31,7 +31,7 @@ class Regions:
             if not isinstance(item, Region):
                 raise TypeError('Input regions must be a list of Region '
                                 'objects')
-        self.regions = regions
+        self.regions = list(regions)
 
     def __getitem__(self, index):
         newregions = self.regions[index]
@@ -95,6 +95,8 @@ class Regions:
         region : `~regions.Region`
             The region to insert.
         """
+        if not isinstance(region, Region):
+            raise TypeError('Input region must be a Region object')
         self.regions.insert(index, region)
 
     def reverse(self):
